@@ -17,6 +17,9 @@ WTOK = ["a", "B", ".", "*", "?", "[ab]", "[!a]", "[a-c]", "-", "]", "["]
 WNAMES = ["", "a", "b", "B", "ab", "a.b", "abc", "a/b", "a\nb", "[", "-", "A", "c", "]", "ba"]
 GTOK = ["a", "b", "*", "?", "**", "[ab]", "[!a]", "a*", "*.b"]
 GNAMES = ["a", "b", "ab", "a.b", "c"]
+# patterns with an unclosed '[' or a '/' between brackets, and the names they can match
+BRACKET_PATS = ["a[1/*", "x[y/z]/*", "[/*", "a[1/b/*", "*/[x", "a[1/*/*"]
+BRACKET_NAMES = ["a[1", "x[y", "z]", "[", "[x", "b", "f"]
 
 
 def wild_cases(tier):
@@ -58,6 +61,8 @@ def glob_paths():
 
 def classify(pattern, path, is_dir, impl, spec, level):
     """Narrow classes of the recorded findings; anything else is a violation."""
+    if level == "globber-pruning":
+        return None
     if level == "globber":
         got, want = set(map(tuple, impl)), set(map(tuple, spec))
         extra, missing = got - want, want - got
@@ -70,7 +75,7 @@ def classify(pattern, path, is_dir, impl, spec, level):
         if "**" in pattern and not missing - set(x for x in missing if x[1]):
             return "glob: '**' translated to '.*' crosses component boundaries"
         return None
-    if "\n" in path and impl is True:
+    if "\n" in path and impl is True and level == "glob.match":
         return "glob: '$' under (?ms) lets a pattern match up to a newline in the path"
     if "**" in pattern and impl is True and spec == "SF":
         return "glob: '**' translated to '.*' crosses component boundaries"
@@ -168,6 +173,32 @@ def run(report, forced=None):
             elif cnt.files + cnt.directories != len(got):
                 bad.append(dict(level="globber-count", pattern=p, path="", is_dir=False,
                                 implementation=repr(cnt), reference=len(got)))
+        m.close()
+    # (iv) depth pruning with bracket patterns: fs.glob must return what a complete walk + glob.match selects
+    for _ in range((20 if thorough else 6) if forced is None else 0):
+        m = MemoryFS()
+        for _k in range(rnd.randint(3, 9)):
+            d = "/".join(rnd.choice(BRACKET_NAMES) for _ in range(rnd.randint(1, 3)))
+            try:
+                m.makedirs(d, recreate=True)
+                m.writebytes(d + "/" + rnd.choice(BRACKET_NAMES), b"1\n")
+            except Exception:
+                pass
+        everything = [(p, i.is_dir) for p, i in m.walk.info()]
+        for p in BRACKET_PATS:
+            try:
+                got = sorted(g.path.rstrip("/") for g in m.glob(p))
+                want = sorted(path for path, d in everything if G.match(p, path + ("/" if d else "")))
+            except Exception as e:
+                continue
+            total += 1
+            globber_checked += 1
+            if want:
+                nontrivial.add(("Gb", p, tuple(want)))
+            if got != want:
+                bad.append(dict(level="globber-pruning", case_sensitive=True, pattern=p,
+                                path=(sorted(set(want) ^ set(got)) or [""])[0], is_dir=False,
+                                implementation=got, reference=want, tree=everything))
         m.close()
     # classification
     seen = set()
